@@ -27,9 +27,8 @@ def call(mod, fname, o, *payload):
     try:
         return "ok", ev.call_function(fname, args)
     except RaiseReached as r:
-        exc = r.node.exc
-        nm = exc.func.id if isinstance(exc, ast.Call) and isinstance(exc.func, ast.Name) else getattr(exc, "id", None)
-        return "raise", nm
+        from xfabsa.symeval import raised_name
+        return "raise", raised_name(r)
 
 
 def pair(v):
